@@ -2,7 +2,7 @@
 H-USE, H-VAC, H-ITEM, H-UNUSED.  The helper is the ring buffer of per-slot list items that tracks
 vacant slots / used bases for the last N blocks; these rules pin down what each of its small
 functions must compute (quantity typing: element index vs block number vs ring offset)."""
-from . import core
+from . import core, cond
 from .core import Callee, walk, show
 from .view import FnView, pnorm, OPTION, mk_payload
 from .pat import m, ANY, V, K, Par, C, F, E, P, B, Phi, members
@@ -113,7 +113,7 @@ def rule_helper(ctx, R):
     ok = len(lits) == 1
     if ok:
         f = dict(lits[0][3])
-        capv = P(C(endswith("checked_mul"), Par(1), Par(2)))
+        capv = B("Mul", Par(1), Par(2))      # (the payload of checked_mul is the product)
         ok = m(Par(1), f.get("block_len")) and m(Par(2), f.get("num_free_blocks")) and is_const(f.get("num_blocks"), 0) and \
             f.get("head_idx", ("x",))[0] == "agg" and f["head_idx"][2] == "None" and \
             m(C("alloc::vec::from_elem", C(endswith("Default::default@" + LI)), capv), f.get("items"))
@@ -142,15 +142,10 @@ def rule_helper(ctx, R):
     db = fn["dropped_block"]
     t, dfv = _ret(lib, db)
     S = Sites(lib, db)
-    th = S.keyed(lambda k: k.endswith("bool::then"))
-    okd = len(th) == 1 and m(B("Le", cap, nel), th[0]["args"][0])
-    if okd:
-        cl = th[0]["args"][1]
-        cr = dfv.closure_ret(cl[1]) if cl[0] == "closure" else None
-        okd = cr is not None and m(F(C(H + "::active_block_range", ANY), "start"), cr)
-    if not okd:
-        # alternative: explicit if
-        okd = False
+    full = lambda t: cond.le_terms(t, lambda x: m(cap, x), lambda x: m(nel, x))     # the proposition capacity <= num_elements
+    okd = cond.some_iff(dfv, S.root, t, {"k": "move", "place": {"local": 0, "proj": []}},
+                        lambda x: full(x) is True, True, lambda x: m(F(C(H + "::active_block_range", ANY), "start"), x),
+                        neg_pred=lambda x: full(x) is False)
     ctx.check(okd, "KNOB-EVICT", db, "dropped-block", db.span,
               "dropped_block = Some(first active block) exactly when the ring is full (capacity <= num_elements)")
     _push_block(ctx, lib, fn, item, cap, nel)
@@ -224,8 +219,16 @@ def _push_block(ctx, lib, fn, item, cap, nel):
     root = S.root
     bl = F(Par(1), "block_len")
     # capacity check first
-    sw = switches_on(root, lambda d: d[0] == "bin" and d[1] == "Gt" and m(nel, d[2]) and m(B("Sub", ANY, bl), d[3]))
-    ctx.check(len(sw) == 1, "VALID-KIND", b, "scale-guard", b.span, "push_block must refuse to grow past u32::MAX (num_elements > MAX - block_len)")
+    sw = switches_on(root, lambda d: cond.le_terms(d, lambda x: m(nel, x), lambda x: m(B("Sub", ANY, bl), x)) is not None)
+    oksg = len(sw) == 1
+    if not oksg:
+        # `num_elements().checked_add(block_len)` with the None arm returning the error
+        csw = switches_on(root, lambda d: d[0] == "discr" and d[1][0] == "call" and isinstance(d[1][1], str) and
+                          d[1][1].endswith("::checked_add") and m(nel, d[1][2][0]) and m(bl, d[1][2][1]))
+        errs = [bi for bi, si, st in b.stmts() if st["k"] == "assign" and st["lhs"]["local"] == 0 and st["rv"]["k"] == "aggregate" and st["rv"].get("variant") == "Err"]
+        oksg = len(csw) == 1 and any(b.edge_guards((csw[0][0], opt_arms(csw[0][1])[1]), e) for e in errs)
+        sw = csw if oksg else []
+    ctx.check(oksg, "VALID-KIND", b, "scale-guard", b.span, "push_block must refuse to grow past u32::MAX (num_elements > MAX - block_len)")
     # num_blocks += 1, once
     ws = [s for s in S.stores if m(F(Par(1), "num_blocks"), s["tgt"])]
     ok = len(ws) == 1 and m(B("Add", F(Par(1), "num_blocks"), K(1)), ws[0]["val"]) and not b.in_cycle(ws[0]["bb"])
@@ -296,19 +299,37 @@ def _push_block(ctx, lib, fn, item, cap, nel):
     oldp = lambda t, e: core.same(t, old)
     newm1 = B("Sub", B("Add", oldp, bl), K(1))
     i = P(C(anykey, ANY, site=(b.path, pulls[0]["bb"])))
-    # "reset": the new slot is overwritten with a default item (inlined normal form of any reset helper)
-    rs = [{"bb": x["bb"], "args": [None, x["tgt"][2][2] if x["tgt"][2][0] == "bin" else x["tgt"][2]]} for x in S.stores
-          if x["tgt"][0] == "elem" and m(F(Par(1), "items"), x["tgt"][1]) and x["tgt"][2][0] == "bin" and x["tgt"][2][1] == "Rem"
-          and x["val"][0] == "call" and "Default::default" in str(x["val"][1])]
+    # the new slot's final contents, field by field, whatever the source form: a store of `ListItem::default()` followed by
+    # stores through next_mut()/prev_mut(), or one struct literal `ListItem { next, prev, ..Default::default() }`
+    def is_default(t):
+        return t[0] == "call" and "Default::default" in str(t[1])
+    whole = []      # (bb, index term, {field: term | 'default'})
+    for x in S.stores:
+        if x["tgt"][0] == "elem" and m(F(Par(1), "items"), x["tgt"][1]) and x["tgt"][2][0] == "bin" and x["tgt"][2][1] == "Rem":
+            v = x["val"]
+            if is_default(v):
+                whole.append((x["bb"], x["tgt"][2][2], {"next": "default", "prev": "default", "used_base": "default", "used_index": "default"}))
+            elif v[0] == "agg" and v[1] == LI:
+                fl = {}
+                for fname, ft in v[3]:
+                    fl[fname] = "default" if (ft[0] == "field" and is_default(ft[1]) and ft[3] == fname) or \
+                        (fname.startswith("used_") and ft[0] == "const" and ft[1] in (0, False, "false")) else ft
+                whole.append((x["bb"], x["tgt"][2][2], fl))
     nxt = _stores_via(S, "next_mut")
     prv = _stores_via(S, "prev_mut")
 
     def has(stores, tgt_idx, val):
         return [bb for x, v, bb in stores if m(item(tgt_idx), x) and m(val, v)]
+    rs = [{"bb": w[0], "args": [None, w[1]]} for w in whole]
+    flags_ok = len(whole) == 1 and whole[0][2].get("used_base") == "default" and whole[0][2].get("used_index") == "default"
     ok1 = has(nxt, i, B("Add", i, K(1)))
     ok2 = has(prv, i, OneOfSub(i))
-    ctx.check(len(rs) == 1 and m(i, rs[0]["args"][1]) and bool(ok1) and bool(ok2), "H-PUSH", b, "chain-new-slots", b.span,
-              "every new slot i is reset and linked next=i+1, prev=i-1")
+    if len(whole) == 1 and not ok1 and whole[0][2].get("next") != "default" and m(B("Add", i, K(1)), whole[0][2]["next"]):
+        ok1 = [whole[0][0]]
+    if len(whole) == 1 and not ok2 and whole[0][2].get("prev") != "default" and m(OneOfSub(i), whole[0][2]["prev"]):
+        ok2 = [whole[0][0]]
+    ctx.check(len(rs) == 1 and flags_ok and m(i, rs[0]["args"][1]) and bool(ok1) and bool(ok2), "H-PUSH", b, "chain-new-slots", b.span,
+              "every new slot i is reset (used flags cleared) and linked next=i+1, prev=i-1")
     # … for EVERY new slot: no path through the loop body skips the reset or either link store
     swp = switches_on(root, lambda d: d[0] == "discr" and d[1][0] == "call" and d[1][3] == (b.path, pulls[0]["bb"]))
     if len(swp) == 1 and rs and ok1 and ok2:
@@ -458,17 +479,64 @@ def _unused_base(ctx, lib, fn):
     S = Sites(lib, b)
     bl = F(Par(1), "block_len")
     start = B("Mul", Par(2), bl)
+    end = B("Add", start, bl)
     finds = S.keyed(lambda k: core.callee_base(k) == "core::iter::Iterator::find")
-    ok = len(finds) == 1
-    if ok:
+    ok = False
+    if len(finds) == 1:
         r = finds[0]["args"][0]
         rr = [x for x in members(r) if x[0] == "agg"]
-        ok = len(rr) == 1 and m(("agg", "core::ops::Range", "Range", (("start", start), ("end", B("Add", start, bl)))), rr[0])
+        ok = len(rr) == 1 and m(("agg", "core::ops::Range", "Range", (("start", start), ("end", end))), rr[0])
         cl = finds[0]["args"][1]
         cr = S.fv.closure_ret(cl[1]) if cl[0] == "closure" else None
-        ok = ok and cr is not None and cr[0] == "un" and cr[1] == "Not" and cr[2][0] == "call" and cr[2][1] == H + "::is_used_base"
+        ok = ok and cr is not None and cr[0] == "un" and cr[1] == "Not" and cr[2][0] == "call" and cr[2][1] == H + "::is_used_base" and \
+            m(Par(1), cr[2][2][0]) and cr[2][2][1][0] == "item"
+    else:
+        ok = _first_unused_loop(S, b, start, end)
     ctx.check(ok, "H-UNUSED", b, "scan-block-for-unused-base", b.span,
               "unused_base_in_block scans block_idx*block_len .. +block_len for a base that is not used")
+
+
+def _first_unused_loop(S, b, start, end):
+    """explicit form of `(start..end).find(|&c| !self.is_used_base(c))`: a counter c = start, start+1, … < end; the first c
+    with !is_used_base(c) is returned as Some(c); None only when the loop ran out"""
+    root = S.root
+    cnt = Phi(B("Add", ANY, K(1)), start, req=[0, 1])
+    ubs = [s for s in S.calls if s["vw"] is root and s["key"] == H + "::is_used_base" and m(Par(1), s["args"][0]) and m(cnt, s["args"][1])]
+    if len(ubs) != 1 or not b.in_cycle(ubs[0]["bb"]):
+        return False
+    ub = ubs[0]
+    c = ub["args"][1]
+    same_c = lambda x: core.same(x, c)
+    # loop test: c < end   (any comparison form)
+    tests = []
+    for sbi, stj, d in switches_on(root, lambda d: d[0] == "bin" or (d[0] == "un" and d[1] == "Not")):
+        r = cond.le_terms(d, lambda x: m(end, x), same_c)      # end <= c  == loop finished
+        if r is not None and b.in_cycle(sbi) and b.dominates(sbi, ub["bb"]):
+            tt, ff = bool_arms(stj)
+            tests.append((sbi, ff if r else tt, tt if r else ff))      # (switch, body arm, exit arm)
+    if len(tests) != 1:
+        return False
+    sbi, body_arm, exit_arm = tests[0]
+    somes = [bi for bi, si, st in b.stmts() if st["k"] == "assign" and st["lhs"]["local"] == 0 and not st["lhs"]["proj"] and
+             st["rv"]["k"] == "aggregate" and st["rv"].get("variant") == "Some" and same_c(pnorm(root.T.operand(st["rv"]["ops"][0])))]
+    nones = [bi for bi, si, st in b.stmts() if st["k"] == "assign" and st["lhs"]["local"] == 0 and not st["lhs"]["proj"] and
+             st["rv"]["k"] == "aggregate" and st["rv"].get("variant") == "None"]
+    if len(somes) != 1 or not nones:
+        return False
+    usite = (b.path, ub["bb"])
+    used = lambda t: t[0] == "call" and t[3] == usite
+    free = cond.explore(root, [body_arm], [(used, False)], stop=[sbi] + somes)
+    busy = cond.explore(root, [body_arm], [(used, True)], stop=[sbi] + somes)
+    if free is None or busy is None:
+        return False
+    ok = somes[0] in free and sbi not in free and sbi in busy and somes[0] not in busy
+    # None only after the loop ran out; the counter advances on the way back to the test
+    ok = ok and all(b.edge_guards((sbi, exit_arm), nb) for nb in nones)
+    def is_inc(t):
+        return t[0] in ("bin", "ovf") and t[1] == "Add" and ((core.same(t[2], c) and is_const(t[3], 1)) or (core.same(t[3], c) and is_const(t[2], 1)))
+    upd = [bi for bi, si, st in b.stmts() if st["k"] == "assign" and not st["lhs"]["proj"] and b.in_cycle(bi) and
+           is_inc(pnorm(root.T.rvalue(st["rv"])))]
+    return ok and bool(upd) and sbi not in b.reach(body_arm, avoid_blocks=upd + somes)
 
 
 def _flags(ctx, lib, fn, item):
